@@ -1547,7 +1547,7 @@ func decide(st *State, c Val) (bool, bool) {
 			}
 		}
 		// a concatenation with a non-empty constant part is not the empty string
-		if s, ok := constString(b.Y); ok && s == "" && nonEmptyString(b.X) {
+		if s, ok := constString(b.Y); ok && s == "" && (nonEmptyString(b.X) || encodedNonEmpty(st, b.X)) {
 			return false, true
 		}
 		// x == K1 known, asking x == K2
@@ -1568,6 +1568,24 @@ func decide(st *State, c Val) (bool, bool) {
 		ay, oky := b.Y.(*AllocV)
 		if okx && oky && ax.Key() != ay.Key() {
 			return false, true
+		}
+		// an error made on this path (fmt.Errorf / errors.New allocate) is not the value a package-level sentinel holds
+		{
+			freshErr := func(v Val) bool {
+				cv, ok := v.(*CallV)
+				return ok && (cv.Callee == "fmt.Errorf" || cv.Callee == "errors.New")
+			}
+			sentinel := func(v Val) bool {
+				l, ok := v.(*LoadV)
+				if !ok {
+					return false
+				}
+				_, isG := l.Addr.(*GlobalV)
+				return isG
+			}
+			if (freshErr(b.X) && sentinel(b.Y)) || (freshErr(b.Y) && sentinel(b.X)) {
+				return false, true
+			}
 		}
 		// x == y where the path knows x == nil and y cannot be nil (err == dsig.ErrMissingSignature after err == nil)
 		if !isNilConst(b.X) && !isNilConst(b.Y) && isNillable(b.X.Type()) {
@@ -2601,4 +2619,24 @@ func storedOnlyByInit(g *ssa.Global) bool {
 		}
 	}
 	return true
+}
+
+// encodedNonEmpty: v is (or starts / ends with) url.Values.Encode() of a map that has received an Add or Set on this
+// path: "k=v" at least, never the empty string.
+func encodedNonEmpty(st *State, v Val) bool {
+	switch x := v.(type) {
+	case *BinV:
+		if x.Op == token.ADD {
+			return encodedNonEmpty(st, x.X) || encodedNonEmpty(st, x.Y)
+		}
+	case *CallV:
+		if x.Callee == "(net/url.Values).Encode" && len(x.Args) == 1 {
+			for _, e := range st.events {
+				if e.Kind == EvCall && (e.Callee == "(net/url.Values).Add" || e.Callee == "(net/url.Values).Set") && len(e.Args) > 0 && e.Args[0].Key() == x.Args[0].Key() {
+					return true
+				}
+			}
+		}
+	}
+	return false
 }
